@@ -127,6 +127,10 @@ func (h *harnessSpec) options(tier string) sx.Options {
 	o.Solver = get("solver")
 	o.NLSolver = get("nlsolver")
 	o.StrictCap = get("strictcap") == "true"
+	o.NonTermViolation = get("nonterm") == "violation"
+	if v := get("maxsteps"); v != "" {
+		o.MaxSteps, _ = strconv.Atoi(v)
+	}
 	if v := get("init"); v != "" {
 		o.InitPkgs = strings.Split(v, ",")
 	}
